@@ -973,3 +973,239 @@ Proof.
     - unfold exec_hrandfield. wrong_err. }
   split; [exact E|]. eapply hashes_dispatch_error_unchanged; eassumption.
 Qed.
+
+(* ------------------------------------------------------------------ the empty value is a value *)
+Theorem empty_value_distinct d c k f c1 c2 c3 r d' :
+  exec_hset d [c; k; f; []] = (r, d') -> is_err r = false ->
+  exec_hget d' [c1; k; f] = (RBulk [], d') /\
+  exec_hexists d' [c2; k; f] = (RInt 1, d') /\
+  exec_hstrlen d' [c3; k; f] = (RInt 0, d') /\
+  hfield d' k f = Some [] /\ RBulk [] <> RNil.
+Proof.
+  intros E NE.
+  assert (NE' : is_err (fst (exec_hset d [c; k; f; []])) = false) by (rewrite E; exact NE).
+  destruct (exec_hset_noerr _ _ _ _ _ NE') as [h Hh].
+  rewrite (exec_hset_one _ _ _ _ _ _ Hh) in E. inversion E; subst. clear E.
+  set (d' := db_set d k (VHash (aset f [] h))).
+  assert (F : hfield d' k f = Some []).
+  { unfold hfield, hview, d'. rewrite hash_at_set. apply alookup_aset_same. }
+  pose proof (hash_or_empty_of_field _ _ _ _ F) as H'.
+  destruct (exec_reads_spec d' c2 k f _ H') as (_ & _ & _ & _ & Ex & _).
+  destruct (exec_reads_spec d' c3 k f _ H') as (_ & _ & _ & _ & _ & Sl).
+  pose proof F as F'. unfold hfield in F'. rewrite F' in Ex, Sl.
+  split; [|split; [|split; [|split]]].
+  - rewrite (exec_hget_spec _ _ _ _ _ H'). rewrite F'. reflexivity.
+  - exact Ex.
+  - exact Sl.
+  - exact F.
+  - discriminate.
+Qed.
+
+(* ------------------------------------------------------------------ HINCRBYFLOAT *)
+Lemma uint_digits u : forallb is_digit (uint_to_bytes u) = true.
+Proof. induction u; cbn [uint_to_bytes forallb]; try rewrite IHu; reflexivity. Qed.
+Lemma n_to_dec_digits n : forallb is_digit (n_to_dec n) = true.
+Proof. apply uint_digits. Qed.
+Lemma zero_chars_digits j : forallb is_digit (zero_chars j) = true.
+Proof. induction j; cbn [zero_chars forallb]; [reflexivity|]. rewrite IHj. reflexivity. Qed.
+
+Lemma digit_not_dot c : is_digit c = true -> beqb c "."%byte = false.
+Proof.
+  intros H. destruct (beqb_spec c "."%byte) as [->|N]; [|reflexivity]. discriminate H.
+Qed.
+
+Lemma digits_val_some s : forall acc, forallb is_digit s = true -> exists z, digits_val s acc = Some z.
+Proof.
+  induction s as [|c r IH]; intros acc H; cbn [digits_val]; [eauto|].
+  cbn [forallb] in H. apply andb_true_iff in H as [H1 H2]. rewrite H1. apply IH. exact H2.
+Qed.
+
+Lemma split_dot_digits s : forallb is_digit s = true -> split_dot s = (s, None).
+Proof.
+  induction s as [|c r IH]; intros H; cbn [split_dot]; [reflexivity|].
+  cbn [forallb] in H. apply andb_true_iff in H as [H1 H2].
+  rewrite (digit_not_dot c H1), (IH H2). reflexivity.
+Qed.
+
+Lemma split_dot_mid a b : forallb is_digit a = true -> split_dot (a ++ "."%byte :: b) = (a, Some b).
+Proof.
+  induction a as [|c r IH]; intros H; cbn [split_dot app]; [reflexivity|].
+  cbn [forallb] in H. apply andb_true_iff in H as [H1 H2].
+  rewrite (digit_not_dot c H1), (IH H2). reflexivity.
+Qed.
+
+Lemma parse_dec_digit_head c r : is_digit c = true ->
+  parse_dec (c :: r) = match parse_udecimal (c :: r) with Some (m, e) => Some (false, m, e) | None => None end.
+Proof. intros H. destruct c; try reflexivity; discriminate H. Qed.
+
+(* what HINCRBYFLOAT prints is a plain finite decimal *)
+Lemma parse_udecimal_fmt s e : s <> [] -> forallb is_digit s = true ->
+  let s' := zero_chars (N.to_nat e + 1 - List.length s) ++ s in
+  let k := (List.length s' - N.to_nat e)%nat in
+  (exists z, parse_udecimal s = Some (z, 0%N)) /\
+  (exists z, parse_udecimal (firstn k s' ++ "."%byte :: skipn k s') = Some (z, N.of_nat (List.length (skipn k s')))).
+Proof.
+  intros Hne Hd s' k. split.
+  - unfold parse_udecimal. rewrite (split_dot_digits s Hd).
+    destruct s as [|c r]; [congruence|]. destruct (digits_val_some (c :: r) 0 Hd) as [z Hz].
+    rewrite Hz. eauto.
+  - assert (Hd' : forallb is_digit s' = true).
+    { unfold s'. rewrite forallb_app, zero_chars_digits, Hd. reflexivity. }
+    assert (Hf : forallb is_digit (firstn k s') = true).
+    { rewrite <- (firstn_skipn k s') in Hd'. rewrite forallb_app in Hd'. apply andb_true_iff in Hd' as [X _]. exact X. }
+    unfold parse_udecimal. rewrite (split_dot_mid _ _ Hf). rewrite (firstn_skipn k s').
+    assert (Hne' : s' <> []).
+    { unfold s'. intros E. apply app_eq_nil in E as [_ E]. congruence. }
+    destruct s' as [|c r] eqn:Es; [congruence|]. destruct (digits_val_some (c :: r) 0 Hd') as [z Hz].
+    rewrite Hz. eauto.
+Qed.
+
+Theorem fmt_dec_is_decimal m e : parse_dec (fmt_dec m e) <> None.
+Proof.
+  unfold fmt_dec.
+  set (s := n_to_dec (Z.to_N (Z.abs m))).
+  assert (Hne : s <> []) by apply n_to_dec_nonempty.
+  assert (Hd : forallb is_digit s = true) by apply n_to_dec_digits.
+  destruct (parse_udecimal_fmt s e Hne Hd) as [[z0 P0] [z1 P1]].
+  set (s' := zero_chars (N.to_nat e + 1 - List.length s) ++ s) in *.
+  set (k := (List.length s' - N.to_nat e)%nat) in *.
+  assert (Hd' : forallb is_digit s' = true).
+  { unfold s'. rewrite forallb_app, zero_chars_digits, Hd. reflexivity. }
+  assert (Hk : (e =? 0)%N = false -> (1 <= k)%nat).
+  { intros E. apply N.eqb_neq in E. unfold k.
+    assert (N.to_nat e + 1 <= List.length s')%nat; [|lia].
+    unfold s'. rewrite app_length. assert (L : List.length (zero_chars (N.to_nat e + 1 - List.length s)) = (N.to_nat e + 1 - List.length s)%nat).
+    { generalize (N.to_nat e + 1 - List.length s)%nat. induction n; cbn; [reflexivity|f_equal; exact IHn]. }
+    rewrite L. lia. }
+  destruct (m <? 0).
+  - (* "-" :: body *)
+    destruct (e =? 0)%N; cbn [parse_dec]; [rewrite P0|rewrite P1]; discriminate.
+  - destruct (e =? 0)%N eqn:E0.
+    + destruct s as [|c r] eqn:Es; [congruence|]. cbn [forallb] in Hd. apply andb_true_iff in Hd as [Hc _].
+      rewrite (parse_dec_digit_head c r Hc), P0. discriminate.
+    + specialize (Hk eq_refl).
+      destruct s' as [|c r] eqn:Es'; [cbn in Hk; destruct k; cbn in Hk; lia|].
+      destruct k as [|k']; [lia|]. cbn [firstn app].
+      cbn [forallb] in Hd'. apply andb_true_iff in Hd' as [Hc _].
+      rewrite (parse_dec_digit_head c _ Hc). cbn [firstn app] in P1. rewrite P1. discriminate.
+Qed.
+
+(* the classification reads the decimal faithfully *)
+Lemma fclassify_dec a m e : fclassify a = FDec m e ->
+  exists neg mag, parse_dec a = Some (neg, mag, e) /\ m = (if neg then - mag else mag) /\ dec_in_dom mag e = true.
+Proof.
+  unfold fclassify. destruct (negb (existsb is_digit a) || negb (forallb float_char a)); [discriminate|].
+  destruct (parse_dec a) as [[[neg mag] e0]|]; [|destruct (forallb plain_char a); discriminate].
+  destruct (dec_in_dom mag e0) eqn:D; cbn [andb]; [|discriminate].
+  destruct (negb (neg && (mag =? 0))); [|discriminate].
+  intros H. inversion H; subst. exists neg, mag. repeat split. exact D.
+Qed.
+
+(* nan, inf, infinity (any case, any sign), the empty string: no decimal digit => rejected *)
+Lemma fclassify_no_digit a : existsb is_digit a = false -> fclassify a = FBad.
+Proof. intros H. unfold fclassify. rewrite H. reflexivity. Qed.
+
+(* trailing zeros are dropped without changing the value *)
+Lemma strip_zeros_value fuel : forall m e,
+  (snd (strip_zeros fuel m e) <= e)%N /\
+  m = fst (strip_zeros fuel m e) * pow10 (e - snd (strip_zeros fuel m e)).
+Proof.
+  induction fuel as [|fuel IH]; intros m e; cbn [strip_zeros].
+  - cbn [fst snd]. split; [lia|]. rewrite N.sub_diag. unfold pow10. cbn. lia.
+  - destruct ((0 <? e)%N && (m mod 10 =? 0)) eqn:C.
+    + apply andb_true_iff in C as [C1 C2]. apply N.ltb_lt in C1. apply Z.eqb_eq in C2.
+      destruct (IH (m / 10) (N.pred e)) as [L V]. split; [lia|].
+      set (m' := fst (strip_zeros fuel (m / 10) (N.pred e))) in *.
+      set (e' := snd (strip_zeros fuel (m / 10) (N.pred e))) in *.
+      assert (E10 : m = 10 * (m / 10)) by (pose proof (Z.div_mod m 10); lia).
+      rewrite E10 at 1. rewrite V at 1.
+      replace (e - e')%N with (N.succ (N.pred e - e')) by lia.
+      unfold pow10. rewrite N2Z.inj_succ, Z.pow_succ_r by lia. lia.
+    + cbn [fst snd]. split; [lia|]. rewrite N.sub_diag. unfold pow10. cbn. lia.
+Qed.
+
+(* the numerators add exactly at the common scale *)
+Theorem dec_add_exact m1 e1 m2 e2 :
+  let E := N.max e1 e2 in
+  let r := dec_add m1 e1 m2 e2 in
+  (snd r <= E)%N /\ fst r * pow10 (E - snd r) = m1 * pow10 (E - e1) + m2 * pow10 (E - e2).
+Proof.
+  cbv zeta. unfold dec_add, dec_norm.
+  destruct (strip_zeros_value (N.to_nat (N.max e1 e2)) (m1 * pow10 (N.max e1 e2 - e1) + m2 * pow10 (N.max e1 e2 - e2)) (N.max e1 e2)) as [L V].
+  split; [exact L|]. symmetry. exact V.
+Qed.
+
+(* on the exact domain the new value is the decimal sum, printed; the field is set to what is replied *)
+Theorem exec_hincrbyfloat_exact d c k f a h b m e m0 e0 hint :
+  hash_or_empty d k = Some h -> hview h f = Some b ->
+  fclassify a = FDec m e -> fclassify b = FDec m0 e0 ->
+  let s := dec_add m0 e0 m e in
+  let s' := dec_norm (fst s) (snd s) in
+  dec_in_dom (fst s') (snd s') = true ->
+  exec_hincrbyfloat d [c; k; f; a] hint =
+  (RBulk (fmt_dec (fst s') (snd s')), db_set d k (VHash (aset f (fmt_dec (fst s') (snd s')) h))).
+Proof.
+  intros H F A Bc s s' D. unfold exec_hincrbyfloat. unfold hview in F. rewrite A, H, F, Bc.
+  fold s. destruct s as [m1 e1] eqn:Es. unfold hfloat_store. cbn [fst snd] in s'.
+  fold s'. destruct s' as [m2 e2] eqn:Es'. cbn [fst snd] in D. rewrite D. reflexivity.
+Qed.
+
+Theorem exec_hincrbyfloat_new d c k f a h m e hint :
+  hash_or_empty d k = Some h -> hview h f = None -> fclassify a = FDec m e ->
+  let s' := dec_norm m e in
+  dec_in_dom (fst s') (snd s') = true ->
+  exec_hincrbyfloat d [c; k; f; a] hint =
+  (RBulk (fmt_dec (fst s') (snd s')), db_set d k (VHash (aset f (fmt_dec (fst s') (snd s')) h))).
+Proof.
+  intros H F A s' D. unfold exec_hincrbyfloat. unfold hview in F. rewrite A, H, F.
+  unfold hfloat_store. fold s'. destruct s' as [m2 e2] eqn:Es'. cbn [fst snd] in D. rewrite D. reflexivity.
+Qed.
+
+(* whatever the arguments, the stored value and the observation: HINCRBYFLOAT either answers
+   with an error and changes nothing, or answers with a plain finite decimal and stores exactly
+   that decimal in the field -- NaN and infinities are never stored *)
+Lemma hfloat_follow_finite d k f h hint :
+  let res := hfloat_follow d k f h hint in
+  (is_err (fst res) = true /\ snd res = d) \/
+  (exists b, fst res = RBulk b /\ parse_dec b <> None /\ snd res = db_set d k (VHash (aset f b h))).
+Proof.
+  unfold hfloat_follow. destruct hint; try (left; split; reflexivity).
+  destruct (parse_dec b) eqn:P; [|left; split; reflexivity].
+  right. exists b. repeat split. congruence.
+Qed.
+
+Lemma hfloat_store_finite d k f h m e hint :
+  let res := hfloat_store d k f h m e hint in
+  (is_err (fst res) = true /\ snd res = d) \/
+  (exists b, fst res = RBulk b /\ parse_dec b <> None /\ snd res = db_set d k (VHash (aset f b h))).
+Proof.
+  unfold hfloat_store. destruct (dec_norm m e) as [m' e'].
+  destruct (dec_in_dom m' e'); [|apply hfloat_follow_finite].
+  right. exists (fmt_dec m' e'). repeat split. apply fmt_dec_is_decimal.
+Qed.
+
+Theorem exec_hincrbyfloat_finite_or_rejected d c k f a hint :
+  let res := exec_hincrbyfloat d [c; k; f; a] hint in
+  (is_err (fst res) = true /\ snd res = d) \/
+  (exists b h, fst res = RBulk b /\ parse_dec b <> None /\ hash_or_empty d k = Some h /\
+               snd res = db_set d k (VHash (aset f b h))).
+Proof.
+  unfold exec_hincrbyfloat.
+  assert (Lift : forall h (res : reply * db), hash_or_empty d k = Some h ->
+    ((is_err (fst res) = true /\ snd res = d) \/
+     (exists b, fst res = RBulk b /\ parse_dec b <> None /\ snd res = db_set d k (VHash (aset f b h)))) ->
+    (is_err (fst res) = true /\ snd res = d) \/
+    (exists b h, fst res = RBulk b /\ parse_dec b <> None /\ hash_or_empty d k = Some h /\
+                 snd res = db_set d k (VHash (aset f b h)))).
+  { intros h res Hh [L|(b & R1 & R2 & R3)]; [left; exact L|right; exists b, h; repeat split; assumption]. }
+  destruct (fclassify a) as [m e| |]; [|left; split; reflexivity|].
+  - destruct (hash_or_empty d k) as [h|] eqn:H; [|left; split; reflexivity].
+    destruct (alookup f h) as [b|]; [|apply (Lift h _ eq_refl); apply hfloat_store_finite].
+    destruct (fclassify b) as [m0 e0| |]; [|left; split; reflexivity|apply (Lift h _ eq_refl); apply hfloat_follow_finite].
+    destruct (dec_add m0 e0 m e) as [m' e']. apply (Lift h _ eq_refl). apply hfloat_store_finite.
+  - destruct (hash_or_empty d k) as [h|] eqn:H.
+    + destruct (alookup f h) as [b|]; [|apply (Lift h _ eq_refl); apply hfloat_follow_finite].
+      destruct (fclassify b); [apply (Lift h _ eq_refl); apply hfloat_follow_finite|left; split; reflexivity|
+                               apply (Lift h _ eq_refl); apply hfloat_follow_finite].
+    + left. destruct (hint_is_wrongtype hint); split; reflexivity.
+Qed.
